@@ -125,8 +125,8 @@ type PipelineJob struct {
 	sched      *taskctl.Scheduler
 	taskRunner runner.Runner
 	startTimer *time.Timer
-	// cancelRequested is set when a cancel of the running job was acknowledged, so the job is reported
-	// as canceled when it completes - no matter what its tasks returned in the meantime
+	// cancelRequested is set when a cancel request for the job (CancelJob, forced shutdown) was acknowledged, so the job is
+	// reported as canceled when it completes - no matter what its tasks returned in the meantime
 	cancelRequested bool
 }
 
@@ -872,7 +872,7 @@ func (r *PipelineRunner) Shutdown(ctx context.Context) error {
 			r.mx.Lock()
 
 			for jobID := range r.jobsByID {
-				_ = r.cancelJobInternal(jobID)
+				_ = r.requestCancel(jobID)
 			}
 			r.mx.Unlock()
 
@@ -938,7 +938,21 @@ func (r *PipelineRunner) CancelJob(id uuid.UUID) error {
 	r.mx.Lock()
 	defer r.mx.Unlock()
 
-	return r.cancelJobInternal(id)
+	return r.requestCancel(id)
+}
+
+// requestCancel cancels a job on behalf of a caller (CancelJob, forced shutdown). In contrast to the internal cancel
+// of the remaining tasks after a task failed, an acknowledged request is recorded on the job.
+func (r *PipelineRunner) requestCancel(id uuid.UUID) error {
+	err := r.cancelJobInternal(id)
+	if err != nil {
+		return err
+	}
+
+	// The job exists, since its cancel was acknowledged
+	r.jobsByID[id].cancelRequested = true
+
+	return nil
 }
 
 func (r *PipelineRunner) cancelJobInternal(id uuid.UUID) error {
@@ -987,7 +1001,6 @@ func (r *PipelineRunner) cancelJobInternal(id uuid.UUID) error {
 	}
 
 	cancelFunc := job.sched.Cancel
-	job.cancelRequested = true
 
 	r.wg.Add(1)
 	go (func() {
